@@ -17,6 +17,8 @@ def compare(texts, gos):
         f = (o or "").split("\t")
         if "parseErrors" not in g:
             continue                      # the real parser crashed: reported by the caller's oracle
+        if isinstance(g["parseErrors"], int):
+            g = dict(g, parseErrors=["%d error(s)" % g["parseErrors"]] if g["parseErrors"] else [])
         stats["parser_model_comparisons"] += 1
         if len(f) < 2 or f[1] not in ("ok", "reject"):
             dis.append(({"script": t}, {"parseErrors": g["parseErrors"][:2]}, {"model": (o or "")[:300]},
